@@ -265,14 +265,14 @@ PROPS["C01"] = {
 
 PROPS["C02"] = {
     "level": "model_checking",
-    "claim": "Bounded totality of the units this framework executes from C02's anchors: on every source of the length bound the scanner terminates within 2*len+2 calls, never panics, indexes out of range or dereferences nil; adt.BinOp on every pair of scalar operands and every binary operator returns a scalar or a *Bottom; the real evaluator on every pair of scalar conjuncts returns without panic (implicit assertions of the C01/C03 harnesses). This is the thinnest claim in the manifest.",
-    "note": "Trusted: go/ssa, the executor, z3. Outside: parser, compiler, evaluator beyond the scalar fragment, cycle detection, export, CLI, stack depth, memory, byte-identical repeatability.",
-    "technique": "bounded symbolic execution with implicit panic/index/nil/termination assertions on every path (scanner.Scan, adt.BinOp, Vertex.Finalize on scalar conjuncts)",
+    "claim": "Bounded totality, decided on the real code. Whole pipeline: every source of at most N bytes goes through cue.Context.CompileBytes (parser, compiler, evaluator), Value.Err, Value.Validate(Concrete), Value.Syntax(Final) + format.Node (CUE export) and Value.MarshalJSON (JSON export) and every stage returns a value or an ordinary error - no panic leaves the API, no index out of range, no nil dereference, no unbounded loop (fuel) on any path; parser alone: ParseFile with and without comments returns a file or an error and declaration positions lie within the source. Units: on every source of the length bound the scanner terminates within 2*len+2 calls, never panics, indexes out of range or dereferences nil; adt.BinOp on every pair of scalar operands and every binary operator returns a scalar or a *Bottom; the real evaluator on every pair of scalar conjuncts returns without panic (implicit assertions of the C01/C03 harnesses). The bound on the source length (3 bytes) is what keeps this claim thin.",
+    "note": "Trusted: go/ssa, the executor, z3, the decimal contract model (pipeline and BinOp runs), the executor's models of fmt/strconv/encoding-json for scalars. Outside: sources longer than the bound (so: structs with several fields, references, comprehensions, cycles), division (apd.Context.Quo is not modelled: sources with a '/' outside '//' are skipped), JSON export of non-empty quoted strings, YAML export, the CLI, stack depth, memory, byte-identical repeatability across runs.",
+    "technique": "bounded symbolic execution from go/ssa with implicit panic/index/nil/termination assertions on every path: cue.Context.CompileBytes -> Validate -> Syntax/format.Node -> MarshalJSON on symbolic source bytes; parser.ParseFile; scanner.Scan; adt.BinOp; path feasibility decided by z3 and the byte-domain pre-solver",
     "bounds": {
-        "quick": "scanner: every source of <= 3 bytes (comments on); BinOp: every operator x every pair of atoms (null, bool, int/float < 10^3 with exponent in [-1,1], string/bytes <= 2 bytes)",
-        "thorough": "scanner <= 4 bytes in both modes",
+        "quick": "pipeline: every source of <= 3 bytes (48 543 paths); parser: every source of <= 3 bytes with comments; scanner: every source of <= 3 bytes (comments on); BinOp: every operator x every pair of atoms (null, bool, int/float < 10^3 with exponent in [-1,1], string/bytes <= 2 bytes)",
+        "thorough": "scanner <= 4 bytes in both modes; parser <= 3 bytes in both comment modes; BinOp operands < 10^6, strings <= 3 bytes",
     },
-    "outside": ["parser, compiler, export, CLI", "repeatability of output", "resource bounds"],
+    "outside": ["sources > 3 bytes (pipeline, parser), > 4 bytes (scanner)", "division", "YAML export, CLI", "repeatability of output", "resource bounds"],
     "assumptions": APD_ASSUMPTIONS,
     "runs": [
         {
@@ -290,6 +290,23 @@ PROPS["C02"] = {
             "entries": {
                 "quick": [{"name": "verifHarnessBinOpTotal", "params": {"DIGITS": 3, "EXP": 1, "STRLEN": 2}}],
                 "thorough": [{"name": "verifHarnessBinOpTotal", "params": {"DIGITS": 6, "EXP": 2, "STRLEN": 3}}],
+            },
+        },
+        {
+            "pkg": "./cue/parser",
+            "harness": ["parser/total.go"],
+            "entries": {
+                "quick": [{"name": "verifHarnessParseTotal", "params": {"N": 3}}],
+                "thorough": [{"name": "verifHarnessParseTotal", "params": {"N": 3}}, {"name": "verifHarnessParseTotal", "params": {"N": 3, "COMMENTS": 0}}],
+            },
+        },
+        {
+            "pkg": "./cue",
+            "harness": ["cue/pipeline.go"],
+            "apdmodel": True,
+            "entries": {
+                "quick": [{"name": "verifHarnessPipelineTotal", "params": {"N": 3, "STAGE": 3}}],
+                "thorough": [{"name": "verifHarnessPipelineTotal", "params": {"N": 3, "STAGE": 3}}],
             },
         },
     ],
